@@ -150,7 +150,7 @@ func (p *Policy) draw(n int, label string) int {
 func (p *Policy) triviaPieces(kind GapKind, must bool, prevLast byte, lay *Layout) []piece {
 	switch p.Kind {
 	case PolicyMinimal:
-		if must {
+		if must || kind == GapMust {
 			return []piece{{token.T_WHITESPACE, " "}}
 		}
 		return nil
